@@ -206,7 +206,8 @@ class Ref:
             t = oinfo["tally"]
             rec = {"kind": kind, "choice": sorted(ch), "nchoices": len(choices), "T": self.T,
                    "quota_elected": len(ch) if kind == "elect" else 0,
-                   "ballots_before": dict(st.ballots), "standing_before": set(st.standing), "tally_before": dict(t)}
+                   "ballots_before": dict(st.ballots), "standing_before": set(st.standing), "tally_before": dict(t),
+                   "seats_left_before": self.seats_left(st)}
             if kind == "elect":
                 info["elect_rounds"] += 1
                 if any(t[c] > self.T for c in ch):
